@@ -113,7 +113,7 @@ class BuiltinsMixin:
             r.unit, r.lg, r.deg = v.unit, v.lg, v.deg
             return r
         if v.k in ('int', 'float'):
-            return v.copy(nonneg=True, c=NOCONST)
+            return v.copy(nonneg=True, c=NOCONST, note=None)
         if v.k == 'arr':
             return v.copy(org=frozenset(), nonneg=True, orth=None)
         return TOP()
@@ -447,7 +447,7 @@ class BuiltinsMixin:
         if name == 'tolist':
             return LIST(elem=TOP())
         if name == 'squeeze':
-            return a.copy(dims=None)
+            return self.do_squeeze(a, self.kwarg(pos, kw, 0, 'axis'), node)
         if name == 'conj':
             return a.copy()
         if name == 'cumsum':
